@@ -99,6 +99,11 @@ func (pr *playerRunner) UpdateTableState(table *pokertable.Table) error {
 			return nil
 		}
 
+		// "playing" has been announced but the hand's first state has not arrived yet
+		if gs == nil {
+			return nil
+		}
+
 		// Filtering private information fpr player
 		gs.AsPlayer(gamePlayerIdx)
 
